@@ -18,12 +18,15 @@ import (
 // C07: IQ responses reach the SendIQ caller exactly once; duplicates and races harmless.
 
 type c07plan struct {
-	comp    bool
-	reqs    int      // 1 or 2 concurrent requests
-	sameID  bool     // clashing ids
-	behave  []string // per caller: recv | cancel | abandon
-	respond string   // once | twice | foreign-then-once | late | none
-	seqReuse    bool // one caller, two requests one after the other with the same id under one context
+	comp     bool
+	reqs     int      // 1 or 2 concurrent requests
+	sameID   bool     // clashing ids
+	behave   []string // per caller: recv | cancel | abandon
+	respond  string   // once | twice | foreign-then-once | late | none
+	seqReuse bool     // one caller, two requests one after the other with the same id under one context
+	reuseCtx string   // with seqReuse: "" = one context for both; "first-cancelled" = the first request's context is
+	// cancelled when its answer is in, the second has its own; "first-expires" = the first context (5 s) is left to
+	// expire while the second request, with its own context, is still waiting for its answer (which comes at 10 s)
 	handlerAsks bool // the ordinary iq route reacts to a stray IQ by sending a request of its own
 }
 
@@ -35,6 +38,9 @@ func (p c07plan) name() string {
 	extra := ""
 	if p.seqReuse {
 		extra += "/seq-reuse"
+		if p.reuseCtx != "" {
+			extra += "=" + p.reuseCtx
+		}
 	}
 	if p.handlerAsks {
 		extra += "/handler-asks"
@@ -118,6 +124,10 @@ func c07body(p c07plan) func() {
 					sc.send(res) // requests of the probe phase / of the handler are simply answered
 					continue
 				}
+				if p.reuseCtx == "first-expires" && answered[id] == 2 {
+					pendingLate = append(pendingLate, res)
+					continue
+				}
 				switch p.respond {
 				case "once":
 					sc.send(res)
@@ -189,6 +199,9 @@ func c07body(p c07plan) func() {
 			caller := func() {
 				res := results[i]
 				ctx, cancel := vrt.WithTimeout(vrt.Background(), 60*time.Second)
+				if p.reuseCtx == "first-expires" {
+					ctx, cancel = vrt.WithTimeout(vrt.Background(), 5*time.Second)
+				}
 				iq, _ := stanza.NewIQ(stanza.Attrs{Type: stanza.IQTypeGet, Id: id, To: "example.org"})
 				iq.Payload = &stanza.DiscoInfo{}
 				ch, err := end.sender.SendIQ(ctx, iq)
@@ -204,6 +217,14 @@ func c07body(p c07plan) func() {
 					c1 := vrt.RecvCase(ctx.Done())
 					if vrt.Select(false, c0, c1) == 0 && c0.Ok {
 						res.first = c0.Val.Id
+					}
+					switch p.reuseCtx {
+					case "first-cancelled":
+						cancel()
+						ctx, cancel = vrt.WithTimeout(vrt.Background(), 60*time.Second)
+					case "first-expires":
+						_ = cancel // never called, as in the example of SendIQ's documentation
+						ctx, cancel = vrt.WithTimeout(vrt.Background(), 60*time.Second)
 					}
 					iq2, _ := stanza.NewIQ(stanza.Attrs{Type: stanza.IQTypeGet, Id: id, To: "example.org"})
 					iq2.Payload = &stanza.DiscoInfo{}
@@ -255,13 +276,17 @@ func c07body(p c07plan) func() {
 			vrt.Go(fmt.Sprintf("caller%d", i), caller)
 		}
 		vrt.WaitIdle()
-		if p.respond == "late" {
+		if p.reuseCtx == "first-expires" {
+			vrt.Sleep(10 * time.Second)
+			vrt.WaitIdle()
+		}
+		if p.respond == "late" || p.reuseCtx == "first-expires" {
 			for _, r := range pendingLate {
 				end.sc().send(r)
 			}
 			vrt.WaitIdle()
 		}
-		vrt.Quiet(true) // the tail (timeouts, probe) is not where the races are
+		vrt.Quiet(true)              // the tail (timeouts, probe) is not where the races are
 		vrt.Sleep(200 * time.Second) // every context has ended by now
 		vrt.WaitIdle()
 		// probe: is packet processing still alive?
@@ -431,6 +456,8 @@ func TestVerifC07(t *testing.T) {
 	}
 	for _, comp := range []bool{false, true} {
 		plans = append(plans, c07plan{comp: comp, reqs: 1, behave: []string{"recv"}, respond: "once", seqReuse: true})
+		plans = append(plans, c07plan{comp: comp, reqs: 1, behave: []string{"recv"}, respond: "once", seqReuse: true, reuseCtx: "first-cancelled"})
+		plans = append(plans, c07plan{comp: comp, reqs: 1, behave: []string{"recv"}, respond: "once", seqReuse: true, reuseCtx: "first-expires"})
 		for _, respond := range []string{"twice", "foreign-then-once"} {
 			plans = append(plans, c07plan{comp: comp, reqs: 1, behave: []string{"recv"}, respond: respond, handlerAsks: true})
 		}
